@@ -190,12 +190,12 @@ CLAIMED["C12"] = (
 
 # Clauses added after the seeded-defect rounds and the exploratory variants (DESIGN.md sections 8.1-8.3).
 EXTRA = {
- "C01": " Also decides that only Slot.Set writes the handler table and that every operand a reactor handler reads (buffer, destination, mode) is armed together with the callback before any call that can park the operation; that every constructor stores the new object into its reactors' back-pointers; and, per path and per call site of a shared cancel helper, that a parked operation is completed at most once, after testing and removing the interest of its own direction. Also decides that Cancel reaches a completion for every direction the type parks operations in, that the poll loop dispatches both directions, and that constructors reporting through a callback (NewAsyncAdapter) discharge it exactly once. Also decides that every type embedding a Slot stores a descriptor into it.",
- "C03": " Also decides that a posted handler is counted before the mutex that publishes it is released, and that the poller's SetRead/DelRead change the read interest bit and SetWrite/DelWrite the write interest bit (seen through shared helpers). Also decides that EPOLL_CTL_DEL is issued only under Slot.Events == 0 read after the update and EPOLL_CTL_ADD only when the previous mask was 0. Also decides that every recorded change of Slot.Events that is reported as successful is followed by epoll_ctl on that path. Also decides that the batch loop reads events[i] only for i strictly below the kernel's count.",
- "C04": " Also decides that the read interest is registered only after the timerfd was armed, that Cancel flags the repeating closure in every live state, that ScheduleOnce clears the flag only on paths that arm, and that the immediate callback runs only on a ready timer; that Cancel records stateReady exactly on the success edge of Unset and Close records stateClosed on every path of an open timer. Also decides that a schedule on a timer that is not ready returns an error, that ScheduleOnce arms the internal timer and runs the callback (on expiry and at once), and that Timer.Set registers the read interest.",
+ "C01": " Also decides that only Slot.Set writes the handler table and that every operand a reactor handler reads (buffer, destination, mode) is armed together with the callback before any call that can park the operation; that every constructor stores the new object into its reactors' back-pointers; and, per path and per call site of a shared cancel helper, that a parked operation is completed at most once, after testing and removing the interest of its own direction. Also decides that Cancel reaches a completion for every direction the type parks operations in, that the poll loop dispatches both directions, and that constructors reporting through a callback (NewAsyncAdapter) discharge it exactly once. Also decides that every type embedding a Slot stores a descriptor into it. Also decides that a registration sits on the open branch of a park function's Closed() test.",
+ "C03": " Also decides that a posted handler is counted before the mutex that publishes it is released, and that the poller's SetRead/DelRead change the read interest bit and SetWrite/DelWrite the write interest bit (seen through shared helpers). Also decides that EPOLL_CTL_DEL is issued only under Slot.Events == 0 read after the update and EPOLL_CTL_ADD only when the previous mask was 0. Also decides that every recorded change of Slot.Events that is reported as successful is followed by epoll_ctl on that path. Also decides that the batch loop reads events[i] only for i strictly below the kernel's count. Also decides that an interrupted bounded wait maps to ErrTimeout and an unbounded one to nil.",
+ "C04": " Also decides that the read interest is registered only after the timerfd was armed, that Cancel flags the repeating closure in every live state, that ScheduleOnce clears the flag only on paths that arm, and that the immediate callback runs only on a ready timer; that Cancel records stateReady exactly on the success edge of Unset and Close records stateClosed on every path of an open timer. Also decides that a schedule on a timer that is not ready returns an error, that ScheduleOnce arms the internal timer and runs the callback (on expiry and at once), and that Timer.Set registers the read interest. Also decides that ScheduleRepeating starts only for an interval > 0.",
  "C05": " Also decides that the batch loop covers index 0..len-1 in steps of one. Also decides (R6) that a *Slot handed out by an accessor or passed to a registration is never the address of a field of a by-value copy (the waker's registration stays reachable from the poller). Also decides that the queue mutex is released on every path of every function that takes it.",
  "C07": " Also decides that an incomplete payload unconditionally reserves at least the declared payload length. Also decides that setPayloadLength clears the previous length bits of byte 1 on every path before it ors a code in. Also decides that every Data()[:k] of the decoder follows a PrepareRead(k) that returned nil, that a failed stage returns its error, and that an incomplete payload reserves room at all.",
- "C08": " Also decides that the transitions of the closing handshake exist (Active->ClosedByUs/ClosedByPeer, ClosedByUs->CloseAcked, ->Terminated). Also decides that CodecConn hands the error of a failed transport read to its caller / callback unchanged (the stream recognises the end of the transport by err == io.EOF).",
+ "C08": " Also decides that the transitions of the closing handshake exist (Active->ClosedByUs/ClosedByPeer, ClosedByUs->CloseAcked, ->Terminated). Also decides that CodecConn hands the error of a failed transport read to its caller / callback unchanged (the stream recognises the end of the transport by err == io.EOF). Also decides that each of the three close replies (echo, 1000, 1002) is reachable.",
  "C09": " Also decides that PrepareRead grants n only under n <= ReadLen() or after Commit(n-ReadLen()) under n-ReadLen() <= WriteLen(), that the memmove tail of Consume/Discard starts exactly the shifted amount above its destination, and exact amounts/bounds of Save, Reset, UnreadByte/ShrinkBy, Write*, Claim/ClaimFixed and the save-area validator (canonical comparison forms). Also decides that Read consumes exactly the count it copied, that DiscardAll discards [0, SaveLen()) and that UnreadByte/ShrinkBy move wi.",
  "C10": " Also decides that the chunk Commit returns starts at the cursor of the region it was attached to.",
  "C11": " Also decides that the mapping routine is invoked once with each of the two addresses.",
